@@ -63,6 +63,10 @@ CLAIMED = {
    text="For the three expansions the 864 published table rows equal the generator's field table; every one of the 3,720 generated accessors is interpreted abstractly on a fresh object (every index value of indexed fields): the words a setter writes must be exactly the row's words with header and dirty bits of exactly those words set, the getter must return the arguments, builder setters must have the same effect; rows of one object kind must be disjoint, which (with all mutations funnelled through header_set) makes 'a getter returns the value last set for its field' hold for every sequence of setters; new/set/write/read-back (object-kind dispatch)/size/dirty_reset/mark_fully_dirty are interpreted for all 7 kinds x 3 expansions and compared with the documented wire form (block count, header&dirty blocks, dirty present words in ascending index).",
    note="BTreeMap/Vec/integer primitives are modelled by their std contracts; histories are decided through the per-accessor frame argument, not enumerated; two design-level defects are known findings (multi-word INT rows, overlapping rows in the TBC/Wrath tables), one defect (set_shorts/get_shorts order) was repaired by a fix: commit",
    ref="§3 C13"),
+ "C16": dict(level="other", tech="exit-code table and who-passes-which-code rule on typed HIR + call-graph reachability of every error function from main (MIR) + abstract interpretation of the version relations over an equality-exhaustive finite domain + accepted-interval extraction of enumerator range checks + guard-shape rule on the version-clash loop",
+   text="The 22 exit codes are pairwise distinct and each of the 22 diverging error functions passes exactly one of them to wowm_exit, which ends in process::exit(code); every error function has a call site reachable from main (27 call sites); WorldVersion::covers/overlaps and LoginVersion::fullfills/overlaps are interpreted for all 1,940 pairs of a domain that is exhaustive for equality-only comparisons and equal the documented prefix relation; the enumerator range check accepts exactly the value range of each of the 9 base integer types; the pairwise clash loop excludes pairs only by object identity. These are necessary conditions of 'each rule stops the generator with its own exit status'.",
+   note="that every violation anywhere in a corpus reaches the check of its rule quantifies over input programs and is not decided; one genuine defect (out-of-range enumerator values accepted) was repaired by a fix: commit",
+   ref="§3 C16"),
 }
 NA_REASONS = {}
 DEFAULT_NA = "check under construction in this round (see DESIGN.md); will be claimed once its rule module is committed"
